@@ -592,6 +592,12 @@ impl StoreH {
                 fwd(*old(h), *final(h)), old(h).wf() ==> final(h).wf(), final(h).cur == old(h).cur,     // consequences
     { unimplemented!() }
 }
+impl Node {
+    // tree/node.rs: outputs() = the declared outputs of the node content
+    pub uninterp spec fn s_outputs(&self) -> Vars;
+    #[verifier::external_body]
+    pub fn outputs(&self) -> (r: Vars) ensures r == self.s_outputs() { unimplemented!() }
+}
 impl Process {
     // process.rs: set_data writes into the root task's data (data only)
     #[verifier::external_body]
